@@ -409,6 +409,12 @@ func macroArgsOriginSrc(w *World, v ssa.Value, evalM *types.Func, depth int, src
 			why := macroArgsOriginSrc(w, res[0], evalM, depth+1, func(src ssa.Value) bool {
 				p, isP := unspill(src).(*ssa.Parameter)
 				if !isP {
+					// the helper is handed the call node itself and reads its args field
+					if base, ok := fieldLoad(unspill(src), "FunctionNode", "args"); ok {
+						if bp, ok := unspill(base).(*ssa.Parameter); ok && bp.Parent() == h {
+							return true
+						}
+					}
 					return false
 				}
 				for k, hp := range h.Params {
